@@ -160,6 +160,7 @@ def _errors(case):
         shapes = []
         for size in (1, 2, 4):
             shapes += D.shapes_of(size)
+        shapes.insert(0, ())  # a 0-dimensional array (a scalar NetCDF variable): one cell, but not the shape of any other array
         ns = (2,) if ar == "2" else (2, 3)
         for n in ns:
             for sa, sb in itertools.product(shapes, repeat=2):
